@@ -6,6 +6,8 @@ import (
 	"fmt"
 	"math/rand"
 	"os"
+	"runtime"
+	"strconv"
 	"strings"
 	"testing"
 	"testing/cryptotest"
@@ -153,6 +155,17 @@ func WorkerMain(t *testing.T, w World) {
 	if specPath == "" {
 		t.Skip("SIM_SPEC not set")
 	}
+	// One P: timers live in per-P heaps, and two timers with the same deadline that sit on
+	// different Ps fire in an order nothing in the simulation decides (a goroutine blocked in a
+	// select on both takes whichever comes first). With a single P the order is a function of
+	// the sequence of timer operations, which the decision stream fixes. The simulated
+	// goroutines run one at a time anyway; parallelism comes from running 16 worker processes.
+	// SIM_PROCS overrides (the selftest uses it to show what happens otherwise).
+	procs := 1
+	if v, err := strconv.Atoi(os.Getenv("SIM_PROCS")); err == nil && v > 0 {
+		procs = v
+	}
+	runtime.GOMAXPROCS(procs)
 	b, err := os.ReadFile(specPath)
 	if err != nil {
 		t.Fatal(err)
